@@ -82,7 +82,7 @@ impl Distributor {
       if let Some(conn_iface) = conn_iface_opt {
         let msg_clone = msg.clone(); // Clone message for each send
                                      // ISocketConnection.send_message() handles SNDTIMEO internally
-        match conn_iface.send_message(msg_clone).await {
+        match bounded_peer_send(conn_iface.send_message(msg_clone)).await {
           Ok(()) => {
             tracing::trace!(handle = core_handle, uri = %uri_to_send, "Distributor: send_message successful for URI.");
           }
@@ -154,7 +154,7 @@ impl Distributor {
       if let Some(conn_iface) = conn_iface_opt {
         // Clone the FrameBatch for each peer
         let frames_for_this_peer = zmtp_frames.clone();
-        match conn_iface.send_multipart(frames_for_this_peer).await {
+        match bounded_peer_send(conn_iface.send_multipart(frames_for_this_peer)).await {
           Ok(()) => {
             tracing::trace!(handle = core_handle, uri = %uri_to_send, "Distributor: send_multipart successful for URI.");
           }
@@ -188,6 +188,21 @@ impl Distributor {
     } else {
       Err(failed_uris)
     }
+  }
+}
+
+/// A publisher never waits indefinitely on one subscriber: with SNDTIMEO -1 the connection's
+/// own send waits for room, so the fan-out bounds each per-peer wait and drops the message for
+/// that peer afterwards (what the connection-level cap used to do for every socket type).
+const PUB_PER_PEER_SEND_CAP: std::time::Duration = std::time::Duration::from_secs(30);
+
+async fn bounded_peer_send<F>(send: F) -> Result<(), ZmqError>
+where
+  F: std::future::Future<Output = Result<(), ZmqError>>,
+{
+  match tokio::time::timeout(PUB_PER_PEER_SEND_CAP, send).await {
+    Ok(r) => r,
+    Err(_) => Err(ZmqError::Timeout),
   }
 }
 
